@@ -388,10 +388,9 @@ theorem type_etime_truthful_str : ∀ (op : Op) (now : Int) (db : DB),
 
 theorem type_etime_truthful_list : ∀ (op : Op) (now : Int) (db : DB),
     C02.IsListOp op → db.Inv → db.fk = true → C02.Stale op now db = false →
-    C02.RangeDev op now db = false → C02.RangeMissing op now db = false →
     C02.Spacious op now db = true → Truthful op now db :=
-  fun op now db hop h hfk h1 h2 h3 h4 =>
-    truthful_of_refines h hfk (C02.list_refines_partial op now db hop h h1 h2 h3 h4).2
+  fun op now db hop h hfk h1 h2 =>
+    truthful_of_refines h hfk (C02.list_refines_partial op now db hop h h1 h2).2
 
 theorem type_etime_truthful_set : ∀ (op : Op) (now : Int) (db : DB),
     C03.IsSetOp op → db.Inv → db.fk = true → C03.Stale op now db = false →
